@@ -34,6 +34,8 @@ pub struct Tampered {
     /// None: cannot be expressed in this format
     pub text: Option<String>,
     pub resolver: Resolver,
+    /// the tampered (header, payload, signature) strings
+    pub triple: (String, String, Option<String>),
 }
 
 pub fn other_family(alg: Alg) -> Alg {
@@ -116,7 +118,7 @@ pub fn tamperings(parts: &Parts, fmt: Fmt, alg: Alg, second: Option<&str>, ch: &
                     1 => (h, t.text.as_str(), s),
                     _ => (h, p, t.text.as_str()),
                 };
-                out.push(Tampered { desc: format!("{}: {}", name, t.desc), text: render_triple(parts, fmt, nh, np, Some(ns)), resolver: honest.clone() });
+                out.push(Tampered { desc: format!("{}: {}", name, t.desc), text: render_triple(parts, fmt, nh, np, Some(ns)), resolver: honest.clone(), triple: ((nh).to_string(), (np).to_string(), Some((ns).to_string())) });
             }
         }
     }
@@ -145,14 +147,14 @@ pub fn tamperings(parts: &Parts, fmt: Fmt, alg: Alg, second: Option<&str>, ch: &
                 if let Some(pos) = text.find(':') {
                     text.insert(pos + 1, ' ');
                     let np = b64e(text.as_bytes());
-                    out.push(Tampered { desc: format!("payload {}", name), text: render_triple(parts, fmt, h, &np, Some(s)), resolver: honest.clone() });
+                    out.push(Tampered { desc: format!("payload {}", name), text: render_triple(parts, fmt, h, &np, Some(s)), resolver: honest.clone(), triple: ((h).to_string(), (&np).to_string(), Some((s).to_string())) });
                 }
             }
             continue;
         }
         if let Some(np) = rewrite_json_part(p, f) {
             if np != p {
-                out.push(Tampered { desc: format!("payload re-encoded: {}", name), text: render_triple(parts, fmt, h, &np, Some(s)), resolver: honest.clone() });
+                out.push(Tampered { desc: format!("payload re-encoded: {}", name), text: render_triple(parts, fmt, h, &np, Some(s)), resolver: honest.clone(), triple: ((h).to_string(), (&np).to_string(), Some((s).to_string())) });
             }
         }
     }
@@ -171,18 +173,18 @@ pub fn tamperings(parts: &Parts, fmt: Fmt, alg: Alg, second: Option<&str>, ch: &
                 if nh == signed_h && np == signed_p {
                     continue;
                 }
-                out.push(Tampered { desc: format!("mixed parts: {}", name), text: render_triple(parts, fmt, nh, np, Some(ns)), resolver: honest.clone() });
+                out.push(Tampered { desc: format!("mixed parts: {}", name), text: render_triple(parts, fmt, nh, np, Some(ns)), resolver: honest.clone(), triple: ((nh).to_string(), (np).to_string(), Some((ns).to_string())) });
             }
         }
     }
     // 4. signature stripped or truncated
-    out.push(Tampered { desc: "signature stripped (h.p.)".into(), text: render_triple(parts, fmt, h, p, Some("")), resolver: honest.clone() });
-    out.push(Tampered { desc: "signature and dot stripped (h.p)".into(), text: render_triple(parts, fmt, h, p, None), resolver: honest.clone() });
+    out.push(Tampered { desc: "signature stripped (h.p.)".into(), text: render_triple(parts, fmt, h, p, Some("")), resolver: honest.clone(), triple: ((h).to_string(), (p).to_string(), Some(("").to_string())) });
+    out.push(Tampered { desc: "signature and dot stripped (h.p)".into(), text: render_triple(parts, fmt, h, p, None), resolver: honest.clone(), triple: ((h).to_string(), (p).to_string(), None) });
     let slen = s.len();
     let trunc_lens: Vec<usize> = if all_positions { (1..slen).collect() } else { vec![1, slen / 2, slen - 1, slen - 2, ch.pick(slen.max(2) - 1) + 1] };
     for l in trunc_lens {
         if l > 0 && l < slen {
-            out.push(Tampered { desc: format!("signature truncated to {} chars", l), text: render_triple(parts, fmt, h, p, Some(&s[..l])), resolver: honest.clone() });
+            out.push(Tampered { desc: format!("signature truncated to {} chars", l), text: render_triple(parts, fmt, h, p, Some(&s[..l])), resolver: honest.clone(), triple: ((h).to_string(), (p).to_string(), Some((&s[..l]).to_string())) });
         }
     }
     // 5. alg rewritten
@@ -201,7 +203,7 @@ pub fn tamperings(parts: &Parts, fmt: Fmt, alg: Alg, second: Option<&str>, ch: &
         ("header is not JSON", b64e(b"not json"), s.to_string()),
         ("header typ added (other bytes)", hdr(json!({"alg": alg.name(), "typ":"JWT"})), s.to_string()),
     ] {
-        out.push(Tampered { desc: format!("header rewritten: {}", name), text: render_triple(parts, fmt, &nh, p, Some(&sig)), resolver: honest.clone() });
+        out.push(Tampered { desc: format!("header rewritten: {}", name), text: render_triple(parts, fmt, &nh, p, Some(&sig)), resolver: honest.clone(), triple: ((&nh).to_string(), (p).to_string(), Some((&sig).to_string())) });
     }
     if alg != Alg::HS256 {
         // HS256 keyed with the public key
@@ -212,6 +214,7 @@ pub fn tamperings(parts: &Parts, fmt: Fmt, alg: Alg, second: Option<&str>, ch: &
                 desc: format!("header rewritten: alg HS256, HMAC keyed with the issuer's public key ({})", if i == 0 { "PEM text" } else { "raw bytes" }),
                 text: render_triple(parts, fmt, &nh, p, Some(&sig)),
                 resolver: honest.clone(),
+                triple: (nh.clone(), p.to_string(), Some(sig.clone())),
             });
         }
     }
@@ -226,6 +229,7 @@ pub fn tamperings(parts: &Parts, fmt: Fmt, alg: Alg, second: Option<&str>, ch: &
             desc: format!("re-signed by an attacker {} key, header alg {}", of.name(), of.name()),
             text: render_triple(parts, fmt, js[0], js[1], Some(js[2])),
             resolver: honest.clone(),
+            triple: (js[0].to_string(), js[1].to_string(), Some(js[2].to_string())),
         });
         // same family, attacker key
         let header_json = json!({"alg": alg.name()}).to_string();
@@ -235,14 +239,16 @@ pub fn tamperings(parts: &Parts, fmt: Fmt, alg: Alg, second: Option<&str>, ch: &
             desc: format!("re-signed by an attacker {} key (same family)", alg.name()),
             text: render_triple(parts, fmt, js[0], js[1], Some(js[2])),
             resolver: honest.clone(),
+            triple: (js[0].to_string(), js[1].to_string(), Some(js[2].to_string())),
         });
     }
     // 6. resolver returns another key, token untouched
     let untouched = render_triple(parts, fmt, h, p, Some(s));
-    out.push(Tampered { desc: "untouched token, resolver returns a second key of the same family".into(), text: untouched.clone(), resolver: Resolver::Fixed(alg, KeyId::Second) });
-    out.push(Tampered { desc: "untouched token, resolver returns a key of another family".into(), text: untouched.clone(), resolver: Resolver::Fixed(other_family(alg), KeyId::Primary) });
+    let tr = (h.to_string(), p.to_string(), Some(s.to_string()));
+    out.push(Tampered { desc: "untouched token, resolver returns a second key of the same family".into(), text: untouched.clone(), resolver: Resolver::Fixed(alg, KeyId::Second), triple: tr.clone() });
+    out.push(Tampered { desc: "untouched token, resolver returns a key of another family".into(), text: untouched.clone(), resolver: Resolver::Fixed(other_family(alg), KeyId::Primary), triple: tr.clone() });
     if alg != Alg::HS256 {
-        out.push(Tampered { desc: "untouched token, resolver returns an HMAC secret".into(), text: untouched, resolver: Resolver::Fixed(Alg::HS256, KeyId::Primary) });
+        out.push(Tampered { desc: "untouched token, resolver returns an HMAC secret".into(), text: untouched, resolver: Resolver::Fixed(Alg::HS256, KeyId::Primary), triple: tr });
     }
     out
 }
